@@ -19,7 +19,7 @@ RULE = ("seeded circuits (several nodes per type, hierarchy 0-2, edges) x 1-3 wh
         "linspace(0, T, N), and scipy runs are compared with a reference solution of the same interpolated problem; "
         "non-trivial = input reaches >= 1 state derivative (always) ; distinct = distinct (spec, input plan) hash")
 DECIDING = ['euler_rows_compared', 'adaptive_probe_points', 'adaptive_runs', 'inputs_1d', 'inputs_col1', 'inputs_multicol',
-            'broadcast_inputs', 'converging_inputs', 'sequence_runs', 'wide_targets', 'adaptive_runs_resampled']
+            'broadcast_inputs', 'converging_inputs', 'sequence_runs', 'wide_targets', 'adaptive_runs_resampled', 'backend_fortran', 'backend_torch', 'backend_jax']
 ASSUMPTIONS = ['input samples are white noise, so a shift by one sample or a column permutation is an O(1) error',
                'adaptive: samples are placed uniformly on [0, T] including both end points (as the property states)']
 CASE_TIMEOUT = 240
@@ -40,6 +40,10 @@ def plan(tier, seed):
     # agree in their first and last samples and differ in between; every run must use its own array
     for _ in range(14 if tier == 'quick' else 300):
         cases.append({'family': 'sequence', 'cseed': rnd.randrange(1 << 30), 'mode': 'euler'})
+    # the step-k / sample-k alignment on the other backends (1-based Fortran, torch, jax), with two or three inputs
+    for b in ('fortran', 'fortran', 'torch', 'jax'):
+        for _ in range(4 if tier == 'quick' else 60):
+            cases.append({'family': 'backends', 'cseed': rnd.randrange(1 << 30), 'mode': rnd.choice(['euler', 'heun']), 'backend': b})
     return cases
 
 
@@ -60,6 +64,8 @@ def make_case(case, ctx):
         fam = case.get('family')
         if fam == 'wide':
             vec = rnd.random() < 0.8
+        if fam == 'backends':
+            vec = False
         spec, feats, risk = c04.make_spec({'cseed': rnd.randrange(1 << 30), 'family': 'wide' if fam == 'wide' else 'main'},
                                           ctx['excluded'])
         if vec:
@@ -74,7 +80,7 @@ def make_case(case, ctx):
         N = rnd.randint(12, 40) if fam != 'sequence' else 10 * rnd.randint(101, 120)
         nrs = np.random.RandomState(case['cseed'] % (2 ** 31))
         plan_ = []
-        for _ in range(rnd.randint(1, 3)):
+        for _ in range(rnd.randint(1, 3) if fam != 'backends' else rnd.randint(2, 3)):
             op, var = rnd.choice(in_vars)
             holders = [n for n in ref.node_order if (n, op, var) in ref.kind]
             n = rnd.choice(holders)
@@ -174,7 +180,15 @@ def run_case(case, ctx):
                 mech['sequence_runs'] = mech.get('sequence_runs', 0) + 1
         elif mode in ('euler', 'heun'):
             try:
-                df = observe.run_model(spec, T=T, dt=dt, solver=mode, outputs=outputs, vectorize=vec, inputs=inputs)
+                bkw = {}
+                if case.get('backend'):
+                    from vp.props.c02 import backend_class
+                    if mode not in backend_class(case['backend']).SUPPORTED_SOLVERS:
+                        mode = 'euler'
+                    bkw['backend'] = case['backend']
+                    mech['backend_' + case['backend']] = 1
+                    res['features'].append('backend_' + case['backend'])
+                df = observe.run_model(spec, T=T, dt=dt, solver=mode, outputs=outputs, vectorize=vec, inputs=inputs, **bkw)
             except Exception as e:
                 import traceback
                 raise observe.Mismatch(f"loud: run raised {type(e).__name__}: {e} :: {traceback.format_exc()[-600:]}")
